@@ -66,9 +66,10 @@ def signed_of(bits, k):
 
 
 class Builder:
-    def __init__(self, rnd, version):
+    def __init__(self, rnd, version, big=False):
         self.r = rnd
         self.v = version
+        self.big = big       # a big-endian file: fixed-size forms and the bytes of blocks are stored most significant byte first
         self.cases = []      # (die, Exp, description, nontrivial)
         self.types = {}
         self.top = []
@@ -182,7 +183,7 @@ class Builder:
                     attr = Attr(AT["const_value"], FORM[form], bits)
                 elif c == 3:
                     form = "block1"
-                    attr = Attr(AT["const_value"], FORM["block1"], bits.to_bytes(k, "little"))
+                    attr = Attr(AT["const_value"], FORM["block1"], bits.to_bytes(k, "big" if self.big else "little"))
                     width = k
                 elif c == 4:
                     v = self.r.choice([0, 1, 200, (1 << 63) + 5])
@@ -195,7 +196,7 @@ class Builder:
                              "const_value/sdata on %s" % enc, True)
                     continue
                 if sign is None:
-                    exp = Exp("error-or-diagnostic") if form != "block1" else Exp("block-or-error", data=bits.to_bytes(k, "little"))
+                    exp = Exp("error-or-diagnostic") if form != "block1" else Exp("block-or-error", data=bits.to_bytes(k, "big" if self.big else "little"))
                 elif sign == "bool":
                     exp = Exp("const", value=bits, doms=("bool",))
                 elif sign:
@@ -265,7 +266,7 @@ class Builder:
                 if self.r.random() < 0.7 or under is None:
                     form, attr = fixed_form(k), Attr(AT["const_value"], FORM[fixed_form(k)], bits)
                 else:
-                    form, attr = "block1", Attr(AT["const_value"], FORM["block1"], bits.to_bytes(k, "little"))
+                    form, attr = "block1", Attr(AT["const_value"], FORM["block1"], bits.to_bytes(k, "big" if self.big else "little"))
                 if under == "signed" or forms == "sdata":
                     exp = Exp("const", value=signed_of(bits, k), arith=True)
                 elif under == "unsigned" or forms == "udata":
@@ -330,6 +331,8 @@ class Builder:
 
     def build(self):
         for fn in (self.strings, self.refs, self.flags, self.addresses, self.enumerated, self.lines, self.integrals, self.const_values, self.locations):
+            if self.big and fn == self.locations:
+                continue         # (the operands of generated expressions are written little-endian)
             fn()
         rattrs = [Attr(AT["name"], FORM["string"], b"c07.c"), Attr(AT["language"], FORM["data1"], 1)]
         self.extra_sections = []
@@ -340,7 +343,9 @@ class Builder:
         root = Die(TAG["compile_unit"], rattrs, self.top)
         if rattrs[0].name == AT["macro_info"]:
             self.cases.append((root, Exp("macinfo", entries=entries), "macro_info/%s %d entries" % ("sec_offset" if self.v >= 4 else "data4", len(entries)), True))
-        return Forest([Unit(root, self.v)])
+        f = Forest([Unit(root, self.v)])
+        f.big = self.big
+        return f
 
 
 def FORM_NAME_OF(f):
@@ -470,9 +475,10 @@ def work(task):
         for i in range(start, start + count):
             rnd = random.Random((seed << 32) ^ (i * 2654435761 & 0xffffffff) ^ 0xC07)
             version = rnd.choice([2, 3, 4, 5])
-            b = Builder(rnd, version)
+            b = Builder(rnd, version, big=rnd.random() < 0.25)
             f = b.build()
             data = build_file(f, extra_sections=[(b".debug_line", b"\0" * 64)] + b.extra_sections)
+            ev.label("byte-order:" + ("big" if b.big else "little"))
             try:
                 with TempElf(data) as path:
                     h = drv.open(path, i % 2 == 1)
@@ -515,7 +521,8 @@ def main(tier, seed):
                   assumptions=["libdw's form decoding is trusted; malformed DWARF is not generated",
                                "for integral attributes whose signedness the statement does not fix, either reading of the stored bits is accepted",
                                "attributes that need other sections (decl_file, ranges, macro_info) are not generated here"],
-                  health={"all classes": all(ev.labels.get("class:" + c, 0) > 0 for c in ("name", "type", "external", "low_pc", "language", "decl_line", "byte_size", "const_value", "enumerator", "location"))})
+                  health={"all classes": all(ev.labels.get("class:" + c, 0) > 0 for c in ("name", "type", "external", "low_pc", "language", "decl_line", "byte_size", "const_value", "enumerator", "location")),
+                          "big-endian files": ev.labels.get("byte-order:big", 0) >= 30})
 
 
 def replay(path):
@@ -524,9 +531,9 @@ def replay(path):
     seed, i = rec["recipe"]["seed"], rec["recipe"]["index"]
     rnd = random.Random((seed << 32) ^ (i * 2654435761 & 0xffffffff) ^ 0xC07)
     version = rnd.choice([2, 3, 4, 5])
-    b = Builder(rnd, version)
+    b = Builder(rnd, version, big=rnd.random() < 0.25)
     f = b.build()
-    data = build_file(f, extra_sections=[(b".debug_line", b"\0" * 64)])
+    data = build_file(f, extra_sections=[(b".debug_line", b"\0" * 64)] + b.extra_sections)
     drv = Driver()
     bad = 0
     with TempElf(data) as p:
